@@ -27,7 +27,12 @@ SETOP_REF = {('Union', True): 'sa.union', ('Union', False): 'sa.union_all', ('In
              ('Intersect', False): 'sa.intersect_all', ('Except', True): 'sa.except_', ('Except', False): 'sa.except_all'}
 # `+`: SQLAlchemy's __add__ is dispatched on operand TYPES (over a string-typed operand it is a concatenation: `||` / concat()), so the written operator is kept
 # only by the generic arg0.op('+')(arg1) - reference knowledge about the library, like the join table
-OP_REF = {'+': 'generic:+', '-': '__sub__', '*': '__mul__', '/': '__truediv__', '%': '__mod__', '=': '__eq__', '!=': '__ne__',
+# `/`: SQLAlchemy >= 2.0 (required by the repository: requirements.txt) defines Python's `/` on elements as TRUE division and renders `a / (b + 0.0)` (sqlite) or
+# `a / CAST(b AS NUMERIC)` (postgresql) - not the `/` of the statement (integer division of integers on those targets); the operator as written is `op('/')`.
+# Generic operators take part in SQLAlchemy's bracketing only through the precedence they are given: sqlalchemy.sql.operators._PRECEDENCE has add / sub = 7,
+# mul / truediv / mod = 8, comparisons = 5, AND = 3, OR = 2, and an operand is bracketed exactly when its operator's precedence is lower.
+GENERIC_PRECEDENCE = {'+': 7, '/': 8}
+OP_REF = {'+': 'generic:+', '-': '__sub__', '*': '__mul__', '/': 'generic:/', '%': '__mod__', '=': '__eq__', '!=': '__ne__',
           '<>': '__ne__', '>': '__gt__', '<': '__lt__', '>=': '__ge__', '<=': '__le__', 'is': 'is_', 'is not': 'is_not',
           'like': 'like', 'not like': ('notlike', 'not_like'), 'in': 'in_', 'not in': ('notin_', 'not_in'), '||': 'concat'}
 BOOL_REF = {'and': 'sa.and_', 'or': 'sa.or_'}
@@ -506,6 +511,8 @@ def run(ctx):
         if not (isinstance(res, Elem) and res.kind.startswith('op:') and len(res.args) == 2 and isinstance(res.args[0], Elem) and res.args[0].kind == 'column'
                 and res.args[0].value == ('a',)):
             return f'<not an operation over a and b: {res!r}>'
+        if res.kind.startswith('op:generic:') and op.lower() in GENERIC_PRECEDENCE:
+            return res.kind[3:] + (f' [precedence {getattr(res, "precedence", 0)}]' if getattr(res, 'precedence', 0) != GENERIC_PRECEDENCE[op.lower()] else '')
         return res.kind[3:]
     for op0 in sorted(spellings):
         for op in sorted({op0, op0.upper()}):
@@ -514,7 +521,9 @@ def run(ctx):
                 want = OP_REF[op0]
                 ok = got == want or (isinstance(want, tuple) and got in want)
                 ctx.ob('C06.operator-table', op, ok,
-                       f'operator `{op}` is translated with `{got}` instead of `{want}`: the rendered expression means something else',
+                       f'operator `{op}` is translated with `{got}` instead of `{want}`' + (f' with precedence {GENERIC_PRECEDENCE[op0]}' if op0 in GENERIC_PRECEDENCE else '') +
+                       ': the rendered expression means something else' + (' (Python `/` on SQLAlchemy 2 elements is true division: `a / (b + 0.0)`; a generic operator without '
+                                                                          'its precedence loses the brackets of its operands: `(a = 1) + 1` becomes `a = 1 + 1`)' if op0 in GENERIC_PRECEDENCE else ''),
                        file=FILE, line=te.lineno, witness=f'select a {op} b')
             elif op0 in BOOL_REF:
                 ctx.ob('C06.operator-table', op, got == BOOL_REF[op0],
